@@ -98,6 +98,42 @@ def campaign(c):
             elif 'error' not in out:
                 c.violation('io:no-diagnostic:' + name, '%s: no diagnostic printed' % name, dict(args=args, out=out))
             c.case(('other', name), dict(kind=name, rc=rc, out=out[-160:]))
+        # the same faults inside a batch: the failing input first, in the middle and last among inputs that succeed — the run as a
+        # whole has to report the failure (exit status) whatever follows it, and the good inputs are still compiled
+        good = os.path.join(d, 'good.rsyn'); open(good, 'wb').write(src)
+        good2 = os.path.join(d, 'good2.rsyn'); open(good2, 'wb').write(src)
+        nodata = os.path.join(d, 'nodata.rsyn'); open(nodata, 'wb').write(b'import io;\nimport eth;\neth::frame("|000000000001|", "|000000000002|", io::file("absent.bin"));\n')
+        od = os.path.join(d, 'bo'); os.mkdir(od)
+        for fname, bad_in in (('missing-input', os.path.join(d, 'missing.rsyn')), ('input-is-dir', d + '/sub.rsyn'), ('missing-datafile', nodata)):
+            for pos, order in (('first', [bad_in, good, good2]), ('middle', [good, bad_in, good2]), ('last', [good, good2, bad_in])):
+                for f in os.listdir(od): os.remove(os.path.join(od, f))
+                rc, out, err = run(['--out-dir', od] + order)
+                name = 'batch:%s:%s' % (fname, pos)
+                if 'panicked' in err or rc not in (0, 1):
+                    c.violation('io:panic:' + name, '%s: panic / abnormal exit %d: %s' % (name, rc, err[-200:]), dict(args=order))
+                elif rc == 0:
+                    c.violation('io:claimed-success:' + name, '%s: an input of the batch failed but the exit status is 0' % name, dict(args=order, out=out))
+                elif out.count('error') < 1 or not (os.path.exists(os.path.join(od, 'good.pcap')) and os.path.exists(os.path.join(od, 'good2.pcap'))):
+                    c.violation('io:batch:' + name, '%s: no diagnostic for the failing input, or a good input of the batch was not compiled' % name, dict(args=order, out=out))
+                c.case(('batch', fname, pos), dict(kind=name, rc=rc))
+        # write fault inside a batch: the big output hits the file-size limit, the small ones before and after it fit
+        bigp = os.path.join(d, 'big.rsyn'); open(bigp, 'wb').write(big_program(3, 4000))
+        import resource
+        def limited():
+            import signal
+            signal.signal(signal.SIGXFSZ, signal.SIG_IGN)
+            resource.setrlimit(resource.RLIMIT_FSIZE, (5000, 5000))
+        for pos, order in (('first', [bigp, good]), ('last', [good, bigp]), ('middle', [good, bigp, good2])):
+            for f in os.listdir(od): os.remove(os.path.join(od, f))
+            p = subprocess.run([core.CLI, '--out-dir', od] + order, capture_output=True, cwd=d, timeout=60, preexec_fn=limited)
+            name = 'batch:write-fault:%s' % pos
+            if b'panicked' in p.stderr or p.returncode not in (0, 1):
+                c.violation('io:panic:' + name, '%s: panic / abnormal exit %d' % (name, p.returncode), dict(args=order))
+            elif p.returncode == 0:
+                c.violation('io:claimed-success:' + name, '%s: a write fault in one input of the batch, exit status 0' % name, dict(args=order, out=p.stdout.decode()))
+            elif not os.path.exists(os.path.join(od, 'good.pcap')) or os.path.exists(os.path.join(od, 'big.pcap')):
+                c.violation('io:batch:' + name, '%s: the good input was not compiled or the incomplete output was kept' % name, dict(args=order, out=p.stdout.decode()))
+            c.case(('batch', 'write-fault', pos), dict(kind=name, rc=p.returncode))
         # data file for io::file missing / present
         s2 = b'import io;\nimport eth;\neth::frame("|000000000001|", "|000000000002|", io::file("data.bin"));\n'
         for present in (False, True):
